@@ -129,3 +129,144 @@ fn c13_smh2_m5() {
 fn c13_smh2_m1() {
     c13_reinit2::<1>();
 }
+
+// =====================================================================================
+// C04 — one SuperMinHash2::sketch call is the position-wise lexicographic MIN of (level, value) with the
+// item's unpruned contribution; the stored hash follows; invariant kept
+// =====================================================================================
+//
+//   Inv:  l[k] <= m-1;  b[j] == #{k : l[k] == j};  a_upper == max{ j : b[j] > 0 }
+use rand_xoshiro::Xoshiro256PlusPlus as Xo;
+
+pub(crate) fn any_inv_smh2<const M: usize>() -> Smh2 {
+    let mut s = Smh2::new(M, BuildHasherDefault::<NoHashHasher>::default());
+    for k in 0..M {
+        s.hsketch[k] = kani::any();
+        s.values[k] = kani::any();
+        let lk: usize = kani::any();
+        kani::assume(lk < M);
+        s.l[k] = lk;
+        s.b[k] = 0;
+    }
+    for k in 0..M {
+        for j in 0..M {
+            if s.l[k] == j {
+                s.b[j] += 1;
+            }
+        }
+    }
+    let mut au = 0;
+    for j in 0..M {
+        if s.b[j] > 0 {
+            au = j;
+        }
+    }
+    s.a_upper = au;
+    s.item_rank = kani::any();
+    kani::assume(s.item_rank < (1usize << 40));
+    // the permutation generator may be in any state left by the previous item
+    s.permut_generator = fyk::any_shuffle(M);
+    s
+}
+
+pub(crate) fn inv_smh2<const M: usize>(s: &Smh2) -> bool {
+    let mut hist = [0usize; M];
+    let mut ok = s.hsketch.len() == M && s.values.len() == M && s.l.len() == M && s.b.len() == M;
+    for k in 0..M {
+        ok = ok && s.l[k] < M;
+        for j in 0..M {
+            if s.l[k] == j {
+                hist[j] += 1;
+            }
+        }
+    }
+    let mut au = 0;
+    for j in 0..M {
+        ok = ok && s.b[j] == hist[j];
+        if hist[j] > 0 {
+            au = j;
+        }
+    }
+    ok && s.a_upper == au
+}
+
+fn c04_smh2_step<const M: usize>() {
+    let mut s = any_inv_smh2::<M>();
+    let mut ol = [0usize; M];
+    let mut ov = [0usize; M];
+    let mut oh = [0u64; M];
+    for k in 0..M {
+        ol[k] = s.l[k];
+        ov[k] = s.values[k];
+        oh[k] = s.hsketch[k];
+    }
+    let rank0 = s.item_rank;
+    let item: u64 = kani::any();
+    let r = s.sketch(&item);
+    assert!(r.is_ok());
+    // reference: (level j, value r_j) lands on position k_j of the item's permutation, all m levels
+    let hval = nohash(item);
+    let mut rng = Xo::seed_from_u64(hval);
+    let mut perm = FYshuffle::new(M);
+    let mut cl = [0usize; M];
+    let mut cv = [0usize; M];
+    for j in 0..M {
+        // Uniform<u64>(0, usize::MAX): hi word of draw * (2^64 - 1) == draw - 1 (draw 0 is rejected)
+        let d = rand_xoshiro::oracle::draw(rng.id, rng.ctr);
+        let rj = Uniform::new(0u64, usize::MAX as u64).unwrap().sample(&mut rng) as usize;
+        assert!(rj as u64 == d - 1);
+        let k = perm.next(&mut rng);
+        for k0 in 0..M {
+            if k0 == k {
+                cl[k0] = j;
+                cv[k0] = rj;
+            }
+        }
+    }
+    for k in 0..M {
+        let take = ol[k] > cl[k] || (ol[k] == cl[k] && cv[k] <= ov[k]);
+        if take {
+            assert!(s.l[k] == cl[k] && s.values[k] == cv[k] && s.hsketch[k] == hval);
+        } else {
+            assert!(s.l[k] == ol[k] && s.values[k] == ov[k] && s.hsketch[k] == oh[k]);
+        }
+        // every stored hash is the old content or the hash of the streamed item
+        assert!(s.hsketch[k] == oh[k] || s.hsketch[k] == hval);
+    }
+    assert!(inv_smh2::<M>(&s));
+    assert!(s.item_rank == rank0 + 1);
+    kani::cover!(s.hsketch[0] == hval && oh[0] != hval && (M < 2 || s.hsketch[M - 1] == oh[M - 1] && oh[M - 1] != hval), "witness: one position taken, another kept");
+}
+
+/// from the fresh state the first item writes its hash on every position
+fn c04_smh2_first<const M: usize>() {
+    let mut s = Smh2::new(M, BuildHasherDefault::<NoHashHasher>::default());
+    let item: u64 = kani::any();
+    assert!(s.sketch(&item).is_ok());
+    for k in 0..M {
+        assert!(s.hsketch[k] == nohash(item));
+    }
+    assert!(inv_smh2::<M>(&s));
+    kani::cover!(s.l[0] == M - 1, "witness");
+}
+
+#[kani::proof]
+#[kani::unwind(5)]
+fn c04_smh2_step_m2() {
+    c04_smh2_step::<2>();
+}
+#[kani::proof]
+#[kani::unwind(6)]
+fn c04_smh2_step_m3() {
+    c04_smh2_step::<3>();
+}
+#[kani::proof]
+#[kani::unwind(7)]
+fn c04_smh2_step_m4() {
+    c04_smh2_step::<4>();
+}
+#[kani::proof]
+#[kani::unwind(6)]
+fn c04_smh2_first_m3() {
+    c04_smh2_first::<3>();
+}
